@@ -615,8 +615,22 @@ func genEqLeaf(r *rand.Rand) V {
 }
 
 var eqForms = []string{"n", "n", "n", "a", "as", "p"}
-var eqOps = []string{"c1", "c2", "c3", "c4", "c5", "c6", "c1", "c2", "-", "u1:" + hx("~=") + ":" + hx("fuzzy"), "u2:" + hx("=") + ":" + hx("comparison"), "c0", "c9"}
+var eqOps = []string{"c1", "c2", "c3", "c4", "c5", "c6", "c1", "c2", "-", "u1:" + hx("~=") + ":" + hx("fuzzy"), "u2:" + hx("=") + ":" + hx("comparison"), "c0", "c9", "u3:" + hx("in") + ":" + hx("member")}
 var eqKws = []string{"kw", "k2", "keyword", "", "KW"}
+
+// swapCase inverts the case of every ASCII letter
+func swapCase(s string) string {
+	b := []byte(s)
+	for i, c := range b {
+		switch {
+		case c >= 'a' && c <= 'z':
+			b[i] = c - 32
+		case c >= 'A' && c <= 'Z':
+			b[i] = c + 32
+		}
+	}
+	return string(b)
+}
 
 // a Condition drops an empty-string expression: never generate one
 func fixCondExpr(v V) V {
@@ -931,6 +945,18 @@ func treeSites(r *rand.Rand, v *V, depth int, inner *[]site, outer *[]site) {
 		}
 	case 'C':
 		*outer = append(*outer, site{"kw", func() { v.Kw += "_" }})
+		if swapCase(v.Kw) != v.Kw {
+			*outer = append(*outer, site{"kwcase", func() { v.Kw = swapCase(v.Kw) }}) // letter case is a difference
+		}
+		if p := strings.Split(v.Op, ":"); len(p) == 3 && p[0][0] == 'u' {
+			// a user-defined operator whose text or context differs in letter case only
+			if t := swapCase(unhx(p[1])); t != unhx(p[1]) {
+				*outer = append(*outer, site{"opcase", func() { v.Op = p[0] + ":" + hx(t) + ":" + p[2] }})
+			}
+			if t := swapCase(unhx(p[2])); t != unhx(p[2]) {
+				*outer = append(*outer, site{"ctxcase", func() { v.Op = p[0] + ":" + p[1] + ":" + hx(t) }})
+			}
+		}
 		*outer = append(*outer, site{"op", func() {
 			for k := 0; ; k++ {
 				if o := eqOps[r.Intn(len(eqOps))]; o != v.Op {
